@@ -55,7 +55,7 @@ var HopHeaders = []string{
 	"Proxy-Authenticate",
 	"Proxy-Authorization",
 	"Te", // canonicalized version of "TE"
-	"Trailers",
+	"Trailer", // not Trailers per RFC 7230; See errata https://www.rfc-editor.org/errata_search.php?eid=4522
 	"Transfer-Encoding",
 	"Upgrade",
 }
